@@ -226,6 +226,7 @@ def handle (line : String) : String :=
   | "W" :: rest => cmdW rest
   | "WP" :: rest => cmdWP rest
   | "NP" :: rest => cmdNP rest
+  | ["NV", op, l, r] => cmdNV op l r
   | ["FM", h] =>
     -- `token::any` on one pattern: `fold_map(|_| ())` of the parsed tree, wrapped in an alternation
     match parse (unhex h) with
